@@ -2042,6 +2042,17 @@ class Interp(object):
                 d = dict(a0)
                 d.update(kwargs)
                 return d
+            if not args and kwargs:
+                return dict(kwargs)
+            if isinstance(a0, (list, tuple)) and all(isinstance(x, (tuple, list)) and len(x) == 2 for x in a0):
+                try:
+                    d = dict((k, v) for k, v in a0)
+                except TypeError:
+                    return Top('dict')
+                if isinstance(a0, GenList):
+                    del a0[:]           # (an iterator handed to dict() is used up)
+                d.update(kwargs)
+                return d
             return Top('dict')
         if name in ('set', 'frozenset'):
             if isinstance(a0, (list, tuple)) and not _has_abstract(a0):
